@@ -105,7 +105,8 @@ func cmdEmph(args []string) *Result {
 		syms := anyStrings(rec["s"])
 		ctx := int(rec["ctx"].(float64))
 		var want [][3]int
-		for _, t := range rec["want"].([]any) {
+		wantAny, _ := rec["want"].([]any) // null when the spec procedure yields no emphasis at all
+		for _, t := range wantAny {
 			v := anyInts(t)
 			want = append(want, [3]int{v[0], v[1], v[2]})
 		}
